@@ -199,7 +199,9 @@ CHECKS = {
         'Lean 4 theorems for every number of qubits: the product of two Pauli strings computed with the single-qubit table (power of i '
         'included) acts on every computational basis state exactly as the composition of the two operators (C14_pauli_mul_hom, induction '
         'over the qubits); two strings commute, coefficients included, iff they anticommute on an even number of qubits (C14_commutes_iff); '
-        'the 8-bit accumulation of per-qubit exponents masked with 3 is the exponent modulo 4 for every length (C14_dense_mul_phase). T1: '
+        'the 8-bit accumulation of per-qubit exponents masked with 3 is the exponent modulo 4 for every length (C14_dense_mul_phase); Props.C14b: over any commutative ring the n-th power of '
+        'a*1 + sigma with sigma^2 = w*1 (the recurrence that is multiplication in the algebra) has the closed forms pow_pauli_combination uses when v^2 = w, and a^n, n*a^(n-1) when w = 0 '
+        '(C14_pow_pauli_closed_form, C14_pow_pauli_degenerate, by induction on n); (a+v)^n = (a-v)^n alone does not select the degenerate branch (C14_pow_pauli_i4). T1: '
         'MutablePauliString._imul_atom_helper (all 32 cases) and _vectorized_pauli_mul_phase (all 16 cases) are tabulated from the running '
         'code on every run and kernel-decided equal to the product table (left product for sign +1, right product for sign -1). T2: products '
         'of PauliString / MutablePauliString / DensePauliString against the Lean product; negation, scalars, powers, sums, sum products, '
@@ -217,7 +219,7 @@ CHECKS = {
         '(C09_select_iff over the rationals); the Choi <-> superoperator index reshuffle is an involution for every dimension '
         '(C09_reshuffle_involution); Props.C09b: the documented Kraus operators of bit_flip, phase_flip, amplitude_damp, phase_damp, asymmetric_depolarize, generalized_amplitude_damp and reset satisfy '
         'sum_k K_k^dagger K_k = 1 for every parameter whose weights add up to one (so the selection probabilities of C09_select_iff sum to one for every state), over any commutative ring with a conjugation '
-        'fixing the square roots (C09_*_tp; hypotheses instantiated for C and every 0 <= p <= 1 in NonVacuity/ComplexModel). The reference semantics (Spec.Circuit: one branch per Kraus operator, and independently the '
+        'fixing the square roots (C09_*_tp; hypotheses instantiated for C and every 0 <= p <= 1 in NonVacuity/ComplexModel); Props.C09c: the key InsertionNoiseModel chooses for an operation is a most specific matching key for every list of keys when "proper subtype" is a strict partial order (C09_insertion_key_minimal). The reference semantics (Spec.Circuit: one branch per Kraus operator, and independently the '
         'density-matrix evolution sum_k K rho K^dagger; the two are cross-checked on every case) is compared with DensityMatrixSimulator final '
         'states (validity: Hermitian, unit trace, positive), with the exact recombination of *all* state-vector trajectories enumerated '
         'through a symbolic uniform draw, with conversions Kraus / mixture / superoperator / Choi and back, and with noise-model simulation '
@@ -314,7 +316,7 @@ CHECKS = {
         'concat_ragged (Model/C05Concat, Props/C05Concat), for all circuits and alignments: every operation is kept exactly once (C05_concat2_conserves, C05_concatRagged_conserves), the result has '
         'max(n1, n2, n1+n2-overlap) moments (C05_concat2_length), on every shared wire - qubit, measurement or control key - the first circuit stays strictly before the second (C05_concat2_order), '
         'no moment gets two operations on a qubit (C05_concat2_wf, C05_concatRagged_wf) and the overlap is maximal (C05_concat2_maximal); the concat stream compares the exact moment layout of '
-        'Circuit / FrozenCircuit.concat_ragged (static, bound, mixed arguments, every spelling of align) with the model. '
+        'Circuit / FrozenCircuit.concat_ragged (static, bound, mixed arguments, every spelling of align) with the model; Circuit.zip likewise (C05_zip_wf, C05_zip_length, C05_zip_conserves). '
         'The model mirrors Circuit.insert & co. and is tied to cirq.Circuit by history-driven differential correspondence; the '
         'ordering clauses of the property (existing / inserted / after-prefix / before-suffix with the stated EARLIEST exception) '
         'and the cached summaries are evaluated on the implementation\'s own circuits after every call by a Lean specification '
